@@ -187,7 +187,18 @@ def doc_graph5(e43, e42, e32, e31, e21, e20, e10, override):
     return add_messages(d, params="S4")
 
 
-def doc_marks(ps, pp, pe, pv, pr, pn, dep, since):
+def doc_marks(ps, pp, pe, pv, pr, pn, dep, since, xf=0):
+    d = doc_marks0(ps, pp, pe, pv, pr, pn, dep, since)
+    if xf:
+        # the same metamodel with every unset `proposed` written out as false (the schema allows it, a re-serialised
+        # metamodel contains it): `proposed: false` is "not proposed"
+        targets = [d["structures"][-1], d["structures"][-1]["properties"][0], d["enumerations"][0], d["enumerations"][0]["values"][1], d["requests"][0], d["notifications"][0]]
+        for t in targets:
+            t.setdefault("proposed", False)
+    return d
+
+
+def doc_marks0(ps, pp, pe, pv, pr, pn, dep, since):
     d = base_doc()
     prop = {"name": "label", "type": {"kind": "reference", "name": "Kind"}, "optional": True}
     if pp:
@@ -700,7 +711,7 @@ def evaluate(plugin, doc, prop=None):
     return (["%s: %s of %s: expected %r, emitted %r" % (plugin, k[-1], ".".join(str(x) for x in k[:-1] if x != ""), w, g) for k, w, g in new[:8]], known)
 
 
-FAMILY_RANGES = {"msgnames": [len(REQ_NAMES), len(NOT_NAMES), 2], "params": [2, 3, 3, 2], "text": [7, len(TEXT_FIELDS), len(TEXTS)], "override": [2, 2, 4, 4, 2], "types2": [NSHAPE, NSHAPE, 3, 3, len(NAMES), len(NAMES) - 1], "graph5": [3] * 7 + [1], "types": [NSHAPE, len(BASES), 3, 3, len(NAMES)], "marks": [2] * 8, "messages": [2, 2, 3, 3, 2, 4], "graph": [3] * 6, "enum": [3, 3, 2, 3], "literal": [7, 2, 2, len(NAMES), 3], "alias": [7, 4, 3]}
+FAMILY_RANGES = {"msgnames": [len(REQ_NAMES), len(NOT_NAMES), 2], "params": [2, 3, 3, 2], "text": [7, len(TEXT_FIELDS), len(TEXTS)], "override": [2, 2, 4, 4, 2], "types2": [NSHAPE, NSHAPE, 3, 3, len(NAMES), len(NAMES) - 1], "graph5": [3] * 7 + [1], "types": [NSHAPE, len(BASES), 3, 3, len(NAMES)], "marks": [2] * 9, "messages": [2, 2, 3, 3, 2, 4], "graph": [3] * 6, "enum": [3, 3, 2, 3], "literal": [7, 2, 2, len(NAMES), 3], "alias": [7, 4, 3]}
 
 
 def _concretize(f, n):
@@ -806,7 +817,8 @@ def tiny_lemmas(plugins, tier):
             add(plugin, "types", "s%d" % sel, ["b1", "b2", "opt"], [len(BASES), 3, 3], "%d, b1, b2, opt, 0" % sel, {"sel": sel, "name_idx": 0})
         add(plugin, "types", "names", ["si", "opt", "name_idx"], [3, 3, len(NAMES)], "(0, 2, 3)[si], 0, 0, opt, name_idx", {"b1": 0, "b2": 0})
         for ps in range(2):
-            add(plugin, "marks", "p%d" % ps, ["pp", "pe", "pv", "pr", "pn", "dep", "since"], [2] * 7, "%d, pp, pe, pv, pr, pn, dep, since" % ps, {"ps": ps})
+            add(plugin, "marks", "p%d" % ps, ["pp", "pe", "pv", "pr", "pn", "dep", "since"], [2] * 7, "%d, pp, pe, pv, pr, pn, dep, since, 0" % ps, {"ps": ps, "xf": 0})
+            add(plugin, "marks", "x%d" % ps, ["pp", "pe", "pv", "pr", "pn"], [2] * 5, "%d, pp, pe, pv, pr, pn, 0, 0, 1" % ps, {"ps": ps, "xf": 1, "dep": 0, "since": 0})
         for rk in range(4):
             add(plugin, "messages", "r%d" % rk, ["tnr", "tnn", "dreq", "dnot", "has_params"], [2, 2, 3, 3, 2], "tnr, tnn, dreq, dnot, has_params, %d" % rk, {"result_kind": rk})
         for e32 in range(3):
